@@ -633,7 +633,7 @@ def main():
     oracle = Oracle(ck)
     corpus = [obj["case"] for _, obj in vlib.load_corpus(PROP) if "case" in obj]
     explore(ck, corpus, oracle, xrun)
-    explore(ck, gen_cases(ck.rng, ck.budget(250, 30000)), oracle, xrun)
+    explore(ck, gen_cases(ck.rng, ck.budget(1000, 100000)), oracle, xrun)
     ck.extra_cov["oracle"] = oracle.mode
     if ck.broken() and not [v for v in ck.violations if v["signature"] == "other"]:
         explore(ck, gen_cases(ck.rng, 12000), oracle, xrun=False)      # failing-input search, oracle only
